@@ -637,12 +637,30 @@ def conv(kind, v, rng):
   return mk_coef(kind, v)
 
 
+def _requested_tier():
+  import os, sys
+  t = os.environ.get("VERIF_TIER")
+  if not t and "--tier" in sys.argv:
+    t = sys.argv[sys.argv.index("--tier") + 1]
+  return t if t in ("quick", "thorough") else "quick"
+
+
+def size(tier, quick, thorough, widen=None):
+  """number of cases of a stream: the driver widens a quick check that found a broken obligation but no failing input
+  by calling gen("thorough", other seed); that search is bounded (about 3 x quick), a requested thorough run is not"""
+  if tier == "quick":
+    return quick
+  if _requested_tier() == "quick":
+    return widen if widen is not None else 3 * quick
+  return thorough
+
+
 def gen_call(tier, rng):
   quick = tier == "quick"
   # ---- (1) exhaustive small universe
   bs = [list(t) for n in (1, 2, 3) for t in itertools.product(SMALL, repeat=n)]
   as_ = [[a0] + list(t) for a0 in A0S for n in (0, 1, 2) for t in itertools.product(SMALL, repeat=n)]
-  keep = 800.0 / (len(bs) * len(as_)) if quick else 1.0
+  keep = size(tier, 800.0, float(len(bs) * len(as_))) / (len(bs) * len(as_))
   for b in bs:
     for a in as_:
       if keep < 1.0 and rng.random() > keep:
@@ -656,7 +674,7 @@ def gen_call(tier, rng):
              "tamper": [], "sym": sym, "runs": [mk_run(rng, lm_guess(num, den), sym, az, coefq=(kind == "q"))],
              "tags": ["exh", "sym" if sym else "num", "allzero" if az else "lb=%d,la=%d" % (len(b), len(a))]}
   # ---- (2) random sparse dicts, negative / shifted powers, explicit zeros, empty denominators
-  n2 = 400 if quick else 7000
+  n2 = size(tier, 400, 7000)
   pool = [Fraction(1), Fraction(-1), Fraction(0), Fraction(2), Fraction(-1, 2), Fraction(1, 3), Fraction(-5, 4),
           Fraction(3), Fraction(1, 10), Fraction(-7)]
   for i in range(n2):
@@ -704,7 +722,7 @@ def gen_call(tier, rng):
                     for _ in range(rng.choice([1, 1, 2]))],
            "tags": [tag, "sym" if sym else "num"]}
   # ---- (2b) long delay lines: sparse filters of order 40..64 (echo / comb like), memory of exactly the needed size
-  for i in range(40 if quick else 400):
+  for i in range(size(tier, 40, 400)):
     D = rng.choice([40, 47, 48, 49, 56, 63, 64])
     Dn = rng.choice([0, 1, D // 2, D - 1, D, 47, 48, 64])
     kind = rng.choice(["q", "q", "i"])
@@ -722,7 +740,7 @@ def gen_call(tier, rng):
              ["i", -10 ** 30, 1], mk_coef("f", Fraction(-1.0)), mk_coef("f", Fraction(1.0)), ["i", -1, 1], ["i", 1, 1],
              mk_coef("f", Fraction(-2.5e-07)), mk_coef("q", Fraction(1, 3)), ["i", 2 ** 63, 1], ["i", -2 ** 63, 1]]
   zkinds = ZEROS + [["bool", fr(0)], ["negzero", fr(0)], ["frac", fr(0)]]   # (a non-zero native zero would add floats natively)
-  for i in range(60 if quick else 600):
+  for i in range(size(tier, 60, 600)):
     num = ["list", [rng.choice(special) for _ in range(rng.randrange(0, 4))]]
     a0 = rng.choice([c for c in special if coef_val(c) != 0])
     den = ["list", [a0] + [rng.choice(special) for _ in range(rng.randrange(0, 3))]]
@@ -731,6 +749,30 @@ def gen_call(tier, rng):
     r.pop("argstyle", None)
     yield {"build": {"kind": "list", "num": num, "den": den, "cls": rng.choice(["ZFilter", "LinearFilter"])},
            "tamper": [], "sym": False, "runs": [r], "tags": ["kinds", "num"]}
+  # ---- (2d) coefficient vectors with EQUAL values (symmetric / moving-sum FIR) and NEAR-EQUAL ones: different numbers
+  #      that agree in 6 and more significant digits (dyadic floats, big ints, exact rationals 1e-9 apart)
+  F_ = Fraction
+  groups = [[("f", 1 + F_(1, 2 ** 30)), ("f", 1 + F_(1, 2 ** 31))], [("f", F_(1, 2) + F_(1, 2 ** 40)), ("f", F_(1, 2))],
+            [("f", 1000 + F_(1, 2 ** 20)), ("f", 1000 + F_(1, 2 ** 21))], [("i", 10 ** 9), ("i", 10 ** 9 + 1)],
+            [("q", F_(1, 3)), ("q", F_(1, 3) + F_(1, 10 ** 9))], [("f", -5 - F_(1, 2 ** 30)), ("i", -5)],
+            [("f", F_(0.1234567)), ("f", F_(0.1234568))], [("f", F_(1000.001)), ("f", F_(1000.002))],
+            [("f", 1 + F_(1, 2 ** 30)), ("i", 1)], [("f", -1 - F_(1, 2 ** 35)), ("i", -1)],
+            [("f", F_(3, 4)), ("f", F_(3, 4))], [("i", 7), ("q", F_(7))], [("i", 2), ("i", 2), ("f", F_(2))],
+            [("f", F_(1, 2 ** 20)), ("f", F_(1, 2 ** 20) + F_(1, 2 ** 50))], [("i", 123456789), ("i", 123456790)]]
+  for i in range(size(tier, 70, 700)):
+    def vec(maxother):
+      g = list(rng.choice(groups))
+      v = g + [rng.choice(special[7:13] + [mk_coef("q", F_(3)), mk_coef("i", 0)]) for _ in range(rng.randrange(0, maxother + 1))]
+      rng.shuffle(v)
+      return [c if isinstance(c, list) else mk_coef(c[0], c[1]) for c in v]
+    num = ["list", vec(2)]
+    den = ["list", [rng.choice([mk_coef("i", 1), mk_coef("i", -1), mk_coef("q", F_(2)), mk_coef("f", 1 + F_(1, 2 ** 30))])] +
+                   (vec(1) if rng.random() < 0.4 else [])]
+    r = mk_run(rng, lm_guess(num, den), False, False, nmax=8)
+    if len(r["xs"]) < 3:
+      r["xs"] = [fr(x) for x in XVALS[:5]]
+    yield {"build": {"kind": "list", "num": num, "den": den, "cls": rng.choice(["ZFilter", "LinearFilter"])},
+           "tamper": [], "sym": False, "runs": [r], "tags": ["near-equal", "num"]}
   # ---- (3) the refusals, systematically: assignments that zero a0 / add a negative power
   for num, den, tam in [
       ([1, 1], [1, -1], [["den", 0, 0]]), ([1], [2], [["den", 0, 0]]), ([1, 2], [1, 1, 1], [["den", 0, 0], ["num", -1, 1]]),
@@ -782,7 +824,7 @@ def gen_frac(tier, rng):
     ([I(1), I(2)], [I(1), I(-1)], [["frac", fr(Fraction(5, 3))]]), # Fraction zero in a normal filter: exact
     ([I(1), I(-1)], [I(-1), I(1)], [["frac", fr(Fraction(1, 3))]]),
   ]
-  n = 60 if tier == "quick" else 600
+  n = size(tier, 60, 600)
   pool = [Fraction(1, 3), Fraction(-2, 3), Fraction(1, 2), Fraction(1), Fraction(-1), Fraction(5, 7), Fraction(0),
           Fraction(-3, 4), Fraction(1, 10), Fraction(7, 5)]
   cases = [(b, a, z, "fixed") for b, a, z in fixed]
@@ -901,7 +943,7 @@ def _interleave(rng, pairs, n):
 
 
 def gen_hist(tier, rng):
-  n = 160 if tier == "quick" else 2500
+  n = size(tier, 160, 2500)
   orders = [1, 2, 3, 5, 47, 48, 49, 64]
   for i in range(n):
     order = rng.choice(orders)
@@ -1053,7 +1095,7 @@ def parts_json(v):
 
 
 def gen_cplx(tier, rng):
-  n = 220 if tier == "quick" else 2500
+  n = size(tier, 220, 2500)
   for i in range(n):
     exactc = rng.random() < 0.5          # all coefficients exact (CQ / ExactQ): samples may then be native complex
     pool = [t for t in UNIT + OTHER if not (exactc and t[0] == "c")]
